@@ -21,6 +21,49 @@ use linfa::{
 #[cfg(feature = "serde")]
 use serde_crate::{Deserialize, Serialize};
 
+/// Verification hook (only with `--cfg linfa_verif`): reports, for every call of `TreeNode::fit`,
+/// the path from the root (0 = left, 1 = right), the depth and the rows visible in the row mask.
+#[cfg(linfa_verif)]
+mod verif {
+    use std::cell::RefCell;
+
+    thread_local! {
+        static PATH: RefCell<Vec<u8>> = const { RefCell::new(Vec::new()) };
+    }
+
+    pub(super) fn node(mask: &[bool], depth: usize) {
+        if !linfa::verif_hook::enabled() {
+            return;
+        }
+        PATH.with(|p| {
+            let mut p = p.borrow_mut();
+            // the root call starts a new tree (an earlier fit may have been left by `?`)
+            p.truncate(depth);
+            let path: Vec<String> = p.iter().map(|b| b.to_string()).collect();
+            let rows: Vec<String> = mask
+                .iter()
+                .enumerate()
+                .filter(|(_, m)| **m)
+                .map(|(i, _)| i.to_string())
+                .collect();
+            linfa::verif_hook::emit(&format!(
+                "\"ev\":\"tree.node\",\"path\":[{}],\"depth\":{},\"rows\":[{}]",
+                path.join(","),
+                depth,
+                rows.join(",")
+            ));
+        });
+    }
+
+    pub(super) fn descend(depth: usize, side: u8) {
+        PATH.with(|p| {
+            let mut p = p.borrow_mut();
+            p.truncate(depth);
+            p.push(side);
+        });
+    }
+}
+
 /// RowMask tracks observations
 ///
 /// The decision tree algorithm splits observations at a certain split value for a specific feature. The
@@ -205,6 +248,9 @@ impl<F: Float, L: Label + std::fmt::Debug> TreeNode<F, L> {
         sorted_indices: &[SortedIndex<F>],
         depth: usize,
     ) -> Result<Self> {
+        #[cfg(linfa_verif)]
+        verif::node(&mask.mask, depth);
+
         // compute weighted frequencies for target classes
         let parent_class_freq = data.label_frequencies_with_mask(&mask.mask);
         // set our prediction for this subset to the modal class
@@ -366,6 +412,8 @@ impl<F: Float, L: Label + std::fmt::Debug> TreeNode<F, L> {
         }
 
         // Recurse and refit on left and right subtrees
+        #[cfg(linfa_verif)]
+        verif::descend(depth, 0);
         let left_child = if left_mask.nsamples > 0 {
             Some(Box::new(TreeNode::fit(
                 data,
@@ -378,6 +426,8 @@ impl<F: Float, L: Label + std::fmt::Debug> TreeNode<F, L> {
             None
         };
 
+        #[cfg(linfa_verif)]
+        verif::descend(depth, 1);
         let right_child = if right_mask.nsamples > 0 {
             Some(Box::new(TreeNode::fit(
                 data,
